@@ -38,6 +38,7 @@ HARNESSES = [
     dict(name=H + "kc07::c07_dispatch_70_7f", file="kani/h_c07.rs", ids=r"^C07/exec/", fn="Cpu::fetch, Cpu::exec", props=["C07", "C15"]),
     dict(name=H + "kc07::c07_dispatch_80_ff", file="kani/h_c07.rs", ids=r"^C07/exec/", fn="Cpu::fetch, Cpu::exec", props=["C07", "C15"]),
     dict(name=H + "kc07::c07_mov_b_rejects_movfpe_movtpe", file="kani/h_c07.rs", ids=r"^C07/mov_b/", fn="Cpu::mov_b, mov_b_abs_16_or_24", props=["C07", "C15"]),
+    dict(name=H + "kc07::c07_stc_w_disp24_rejects_ldc", file="kani/h_c07.rs", ids=r"^C07/stc_w_disp24/", fn="Cpu::stc_w_disp24", props=["C07", "C15"]),
     dict(name=H + "kc15::c15_fetch_any_pc", file="kani/h_c15.rs", ids=r"^C15/fetch/", fn="Cpu::fetch", props=["C15"]),
     dict(name=H + "kc19::c19_cost_formula", file="kani/h_c19.rs", ids=r"^C19/calc_state_with_addr/", fn="Cpu::calc_state_with_addr, Cpu::get_wait_state, Bus::get_area_index, Bus::check_dram_area, Bus::read", props=["C19", "C15"]),
     dict(name=H + "kc19::c19_calc_state", file="kani/h_c19.rs", ids=r"^C19/calc_state/", fn="Cpu::calc_state", props=["C19", "C15"]),
@@ -78,14 +79,19 @@ def literals(path):
     return sorted(i for i in ids if "/" in i and not i.endswith("/"))
 
 
-def run_custom(rep, prop, only=None, harness_timeout=900):
+def harness_names(prop):
+    return [h["name"] for h in HARNESSES if prop in h["props"]]
+
+
+def run_custom(rep, prop, only=None, harness_timeout=900, r=None):
     hs = [h for h in HARNESSES if prop in h["props"] and (only is None or only(h))]
     if not hs:
         return None
     log = os.path.join(kani_run.CACHE, "logs", "%s-custom.log" % prop)
-    r = kani_run.run_harnesses([h["name"] for h in hs], harness_timeout=harness_timeout, log_path=log)
-    rep.cmds.append("(cd kani/crate && " + r["cmd"] + ")")
-    rep.logs.append(log)
+    if r is None:
+        r = kani_run.run_harnesses([h["name"] for h in hs], harness_timeout=harness_timeout, log_path=log)
+        rep.cmds.append("(cd kani/crate && " + r["cmd"] + ")")
+        rep.logs.append(log)
     if r["compile_error"]:
         rep.inconclusive.append("kani-compile-error; see " + log)
     status = {}  # oid -> list of (status, detail, unit, secs)
